@@ -84,6 +84,7 @@ Section FromIterInv.
     i_data : map Some (data_out 0 (trace c)) = filter is_some (nexts (trace c));
     i_lazy : length (nexts (trace c)) + (if fi_got_pull (cst c) then 1 else 0) <= npull (ms c) 0;
     i_fin : In None (nexts (trace c)) <-> sk (ms c) 0 = SFinished;
+    i_last : ~ In None (removelast (nexts (trace c)));
   }.
 
   Lemma base_nil : is_base []. Proof. now left. Qed.
@@ -138,7 +139,7 @@ Section FromIterInv.
     constructor; rewrite ?Hm, ?Hs, ?Hd, ?Hc, ?Ht, ?nexts_app, ?data_out_app; cbn;
     rewrite ?add_viols_eq; cbn; repeat (rw_st; cbn; rewrite ?Nat.eqb_refl; cbn);
     rewrite ?app_nil_r;
-    try assumption; try reflexivity; try congruence; auto.
+    try assumption; try reflexivity; try congruence; auto; try (crush; fail).
 
   Lemma inv_sub c s aux : Inv c -> enabled p gstd c (MIn (ISub s aux)) = true ->
                           Inv (step p c (MIn (ISub s aux))).
@@ -185,6 +186,16 @@ Section FromIterInv.
         match goal with H : In None _ <-> _ |- _ =>
           split; [intros HX; apply H in HX; discriminate | discriminate] end
     | |- In None (_ ++ [None]) <-> _ => rewrite in_none_snoc_none; tauto
+    | |- ~ In None (removelast (_ ++ [_])) =>
+        rewrite removelast_last;
+        match goal with H : In None _ <-> _ |- _ =>
+          intros HX; apply H in HX; discriminate end
+    end.
+
+  Ltac fin_same :=
+    match goal with
+    | H : In None ?l <-> _ |- In None ?l <-> _ =>
+        split; [intros HX; apply H in HX; discriminate | discriminate]
     end.
 
   Lemma inv_up c s u : Inv c -> enabled p gstd c (MIn (IUp s u)) = true ->
@@ -224,7 +235,332 @@ Section FromIterInv.
           pose proof (step_in_trace p c (IUp 0 UP) Hlive Hdel Hh) as Ht.
           rewrite settle_dt in Hm; [|exact Esk|apply i_due0|exact Hnd].
           simp_fields Hc Hs Hm Hd Ht; try trace_goal.
-          Show. Show 2. Show 3. 
-  Admitted.
+          exists b. split; [exact Hb|]. right; right. rewrite Hst. auto.
+      + (* Error: completed *)
+        assert (Hh : handle o (IUp 0 (UE e)) (cst c) =
+                     ({| fi_pos := pos; fi_in_loop := false; fi_got_pull := gp;
+                         fi_completed := true; fi_res_done := false |}, [], ARet))
+          by (rewrite Ecst; reflexivity).
+        destruct (step_in p c (IUp 0 (UE e)) Hlive Hdel Hh) as (Hc & Hs & Hm & Hd).
+        pose proof (step_in_trace p c (IUp 0 (UE e)) Hlive Hdel Hh) as Ht.
+        rewrite settle_ret in Hm; [|exact i_ports0|cbn; crush].
+        simp_fields Hc Hs Hm Hd Ht; try fin_same.
+        exists b. split; [exact Hb|]. left. auto.
+      + (* Terminate: completed *)
+        assert (Hh : handle o (IUp 0 UT) (cst c) =
+                     ({| fi_pos := pos; fi_in_loop := false; fi_got_pull := gp;
+                         fi_completed := true; fi_res_done := false |}, [], ARet))
+          by (rewrite Ecst; reflexivity).
+        destruct (step_in p c (IUp 0 UT) Hlive Hdel Hh) as (Hc & Hs & Hm & Hd).
+        pose proof (step_in_trace p c (IUp 0 UT) Hlive Hdel Hh) as Ht.
+        rewrite settle_ret in Hm; [|exact i_ports0|cbn; crush].
+        simp_fields Hc Hs Hm Hd Ht; try fin_same.
+        exists b. split; [exact Hb|]. left. auto.
+    - (* inside the Data delivery of the running loop *)
+      destruct u as [|e|].
+      + (* Pull: only the flag *)
+        assert (Hh : handle o (IUp 0 UP) (cst c) =
+                     ({| fi_pos := pos; fi_in_loop := true; fi_got_pull := true;
+                         fi_completed := false; fi_res_done := false |}, [], ARet))
+          by (rewrite Ecst; reflexivity).
+        destruct (step_in p c (IUp 0 UP) Hlive Hdel Hh) as (Hc & Hs & Hm & Hd).
+        pose proof (step_in_trace p c (IUp 0 UP) Hlive Hdel Hh) as Ht.
+        rewrite settle_ret in Hm; [|exact i_ports0|cbn; crush].
+        simp_fields Hc Hs Hm Hd Ht.
+        exists b. split; [exact Hb|]. right; left. eauto.
+      + assert (Hh : handle o (IUp 0 (UE e)) (cst c) =
+                     ({| fi_pos := pos; fi_in_loop := true; fi_got_pull := gp;
+                         fi_completed := true; fi_res_done := false |}, [], ARet))
+          by (rewrite Ecst; reflexivity).
+        destruct (step_in p c (IUp 0 (UE e)) Hlive Hdel Hh) as (Hc & Hs & Hm & Hd).
+        pose proof (step_in_trace p c (IUp 0 (UE e)) Hlive Hdel Hh) as Ht.
+        rewrite settle_ret in Hm; [|exact i_ports0|cbn; crush].
+        simp_fields Hc Hs Hm Hd Ht; try fin_same.
+        exists b. split; [exact Hb|]. right; left. eauto.
+      + assert (Hh : handle o (IUp 0 UT) (cst c) =
+                     ({| fi_pos := pos; fi_in_loop := true; fi_got_pull := gp;
+                         fi_completed := true; fi_res_done := false |}, [], ARet))
+          by (rewrite Ecst; reflexivity).
+        destruct (step_in p c (IUp 0 UT) Hlive Hdel Hh) as (Hc & Hs & Hm & Hd).
+        pose proof (step_in_trace p c (IUp 0 UT) Hlive Hdel Hh) as Ht.
+        rewrite settle_ret in Hm; [|exact i_ports0|cbn; crush].
+        simp_fields Hc Hs Hm Hd Ht; try fin_same.
+        exists b. split; [exact Hb|]. right; left. eauto.
+  Qed.
+
+  Lemma inv_ret c : Inv c -> enabled p gstd c MRet = true -> Inv (step p c MRet).
+  Proof.
+    intros [] He.
+    pose proof (enabled_live _ _ _ _ He) as Hlive.
+    destruct (enabled_ret_stack _ _ _ He) as (k & cl & rest & Hst0).
+    assert (Hp : ports (mon_event p (ms c) ERet) = []) by exact i_ports0.
+    assert (Hdue : forall s, err_due (mon_event p (ms c) ERet) s = None) by exact i_due0.
+    destruct i_shape0 as (b & Hb & [(Hil & Hst) | [(Hil & Hk & v0 & Hst) | (Hil & Hk & Hst)]]).
+    - (* the subscribing activation returns from the Handshake delivery *)
+      destruct Hb as [-> | ->]; rewrite Hst in Hst0; [discriminate|].
+      assert (Hh : resume o FiDone (cst c) = (cst c, [], ARet)) by reflexivity.
+      destruct (step_ret p c Hlive Hst Hh) as (Hc & Hs & Hm & Hd).
+      pose proof (step_ret_trace p c Hlive Hst Hh) as Ht.
+      rewrite settle_ret in Hm by assumption.
+      simp_fields Hc Hs Hm Hd Ht.
+      + now rewrite i_cstack0, Hst.
+      + exists []. split; auto.
+    - (* back at the while condition after a Data delivery *)
+      rewrite Hst in Hst0. inversion Hst0; subst k cl rest.
+      assert (Hnd : in_data_delivery 0 (cstack (mon_event p (ms c) ERet)) = false).
+      { cbn. rewrite i_cstack0, Hst. cbn. now apply base_no_data. }
+      destruct (cst c) as [pos il gp cp rd] eqn:Ecst. cbn in *. subst il.
+      destruct (gp && negb cp) eqn:Egc.
+      + (* one more iteration *)
+        destruct gp; [|discriminate]. destruct cp; [discriminate|]. clear Egc.
+        assert (Esk : sk (ms c) 0 = SLive).
+        { destruct Hk as [Hk|Hk]; [exact Hk | rewrite Hk in i_compl0; discriminate]. }
+        rewrite Esk in *. subst rd.
+        assert (Hlz : S (length (nexts (trace c))) <= npull (ms c) 0) by lia.
+        destruct (it pos) as [v|] eqn:Eit.
+        * assert (Hh : resume o FiLoop (cst c) =
+                       ({| fi_pos := S pos; fi_in_loop := true; fi_got_pull := false;
+                           fi_completed := false; fi_res_done := false |},
+                        [ONext (Some v)], ACall (CDn 0 (DD v)) FiLoop)).
+          { rewrite Ecst. cbn. unfold fi_loop. cbn. now rewrite Eit. }
+          destruct (step_ret p c Hlive Hst Hh) as (Hc & Hs & Hm & Hd).
+          pose proof (step_ret_trace p c Hlive Hst Hh) as Ht.
+          rewrite settle_dd in Hm; [|exact Esk|exact Hnd].
+          simp_fields Hc Hs Hm Hd Ht; try trace_goal.
+          -- now rewrite i_cstack0, Hst.
+          -- exists b. split; [exact Hb|]. right; left. eauto.
+        * assert (Hh : resume o FiLoop (cst c) =
+                       ({| fi_pos := S pos; fi_in_loop := true; fi_got_pull := false;
+                           fi_completed := false; fi_res_done := true |},
+                        [ONext None], ACall (CDn 0 DT) FiAfterBreak)).
+          { rewrite Ecst. cbn. unfold fi_loop. cbn. now rewrite Eit. }
+          destruct (step_ret p c Hlive Hst Hh) as (Hc & Hs & Hm & Hd).
+          pose proof (step_ret_trace p c Hlive Hst Hh) as Ht.
+          rewrite settle_dt in Hm; [|exact Esk|apply i_due0|exact Hnd].
+          simp_fields Hc Hs Hm Hd Ht; try trace_goal.
+          -- now rewrite i_cstack0, Hst.
+          -- exists b. split; [exact Hb|]. right; right. auto.
+      + (* leave the loop *)
+        assert (Hh : resume o FiLoop (cst c) =
+                     ({| fi_pos := pos; fi_in_loop := false; fi_got_pull := gp;
+                         fi_completed := cp; fi_res_done := rd |}, [], ARet)).
+        { rewrite Ecst. cbn. unfold fi_loop. cbn. now rewrite Egc. }
+        destruct (step_ret p c Hlive Hst Hh) as (Hc & Hs & Hm & Hd).
+        pose proof (step_ret_trace p c Hlive Hst Hh) as Ht.
+        rewrite settle_ret in Hm by assumption.
+        simp_fields Hc Hs Hm Hd Ht.
+        all: try (now rewrite i_cstack0, Hst).
+        all: try (intros HX; destruct Hk; congruence).
+        exists b. split; [exact Hb|]. left. auto.
+    - (* after the Terminate delivery *)
+      rewrite Hst in Hst0. inversion Hst0; subst k cl rest.
+      destruct (cst c) as [pos il gp cp rd] eqn:Ecst. cbn in *. subst il.
+      rewrite Hk in *.
+      assert (Hh : resume o FiAfterBreak (cst c) =
+                   ({| fi_pos := pos; fi_in_loop := false; fi_got_pull := gp;
+                       fi_completed := cp; fi_res_done := rd |}, [], ARet)).
+      { rewrite Ecst. reflexivity. }
+      destruct (step_ret p c Hlive Hst Hh) as (Hc & Hs & Hm & Hd).
+      pose proof (step_ret_trace p c Hlive Hst Hh) as Ht.
+      rewrite settle_ret in Hm by assumption.
+      simp_fields Hc Hs Hm Hd Ht.
+      all: try (now rewrite i_cstack0, Hst).
+      all: try (intros HX; congruence).
+      exists b. split; [exact Hb|]. left. auto.
+  Qed.
+
+  Lemma inv_step c m : Inv c -> enabled p gstd c m = true -> Inv (step p c m).
+  Proof.
+    intros HI He. destruct m as [[s aux|s u|i d|s]|].
+    - now apply inv_sub.
+    - now apply inv_up.
+    - exfalso. destruct HI. start_in He Hlive Hdel Hg.
+      cbn in He. apply andb_prop in He. destruct He as [_ He].
+      rewrite i_us0 in He. destruct d; cbn in He; discriminate.
+    - exfalso. destruct HI. unfold enabled in He.
+      repeat (apply andb_prop in He; destruct He as [? He]).
+      cbn in He. now rewrite i_task0 in He.
+    - now apply inv_ret.
+  Qed.
+
+  Theorem inv_reach c : reach p gstd c -> Inv c.
+  Proof. induction 1; [apply inv0 | now apply inv_step]. Qed.
+
+  (** once the sink has disposed ([fi_completed]), no move advances the
+      iterator, and the flag stays set *)
+  Lemma completed_step c m :
+    Inv c -> fi_completed (cst c) = true -> enabled p gstd c m = true ->
+    fi_completed (cst (step p c m)) = true /\ nexts (trace (step p c m)) = nexts (trace c).
+  Proof.
+    intros HI Hcp He. destruct HI.
+    assert (Esk : sk (ms c) 0 = SDisposed).
+    { rewrite Hcp in i_compl0. destruct (sk (ms c) 0); try discriminate. reflexivity. }
+    destruct m as [[s aux|s u|i d|s]|].
+    - exfalso. start_in He Hlive Hdel Hg. cbn in He. rewrite Hns in He.
+      destruct s as [|s].
+      + rewrite i_subd0, Esk in He. rewrite andb_false_r in He. discriminate.
+      + cbn in He. rewrite andb_false_r in He. discriminate.
+    - exfalso. start_in He Hlive Hdel Hg. cbn in He.
+      destruct s as [|s]; [rewrite Esk in He | rewrite i_sk_other0 in He by lia];
+        rewrite andb_false_r in He; discriminate.
+    - exfalso. start_in He Hlive Hdel Hg.
+      cbn in He. apply andb_prop in He. destruct He as [_ He].
+      rewrite i_us0 in He. destruct d; cbn in He; discriminate.
+    - exfalso. unfold enabled in He.
+      repeat (apply andb_prop in He; destruct He as [? He]).
+      cbn in He. now rewrite i_task0 in He.
+    - pose proof (enabled_live _ _ _ _ He) as Hlive.
+      destruct (enabled_ret_stack _ _ _ He) as (k & cl & rest & Hst).
+      destruct (resume o k (cst c)) as [[s' os] a] eqn:Hres.
+      destruct (step_ret p c Hlive Hst Hres) as (Hc & _).
+      rewrite Hc, (step_ret_trace p c Hlive Hst Hres), nexts_app.
+      assert (E : fi_completed s' = true /\ os = []).
+      { destruct k; cbn in Hres; unfold fi_loop in Hres;
+          rewrite ?Hcp, ?andb_false_r in Hres; inversion Hres; subst; cbn; auto. }
+      destruct E as [E1 ->]. split; [exact E1|]. destruct a; cbn; now rewrite app_nil_r.
+  Qed.
 
 End FromIterInv.
+
+(** ** Exported theorems.  Regime: one sink, no resubscription, the C15
+    monitor check [no_nest] on, C14 counts off, guard [g_std]. *)
+
+(** 1. no protocol violation (in particular no [VNested]: no delivery begins
+    while a Data delivery to the sink is pending) and no panic *)
+Theorem from_iter_safe (it : nat -> option val) p :
+  nsinks p = 1 -> resub p = false -> no_nest p = true -> c14 p = false ->
+  forall c : cfg (from_iter_op it), reach p g_std c -> viols (ms c) = [] /\ dead c = false.
+Proof.
+  intros H1 _ _ H4 c Hr. destruct (inv_reach H1 H4 Hr). split; assumption.
+Qed.
+Print Assumptions from_iter_safe.
+
+(** the structural reason: [fi_in_loop] is set iff the innermost frame is the
+    one loop frame; nothing but the Handshake frame can be below it, so at
+    most one Data delivery is pending and it is the innermost call *)
+Theorem from_iter_loop_stack (it : nat -> option val) p :
+  nsinks p = 1 -> resub p = false -> no_nest p = true -> c14 p = false ->
+  forall c : cfg (from_iter_op it), reach p g_std c ->
+    shape (fi_in_loop (cst c)) (sk (ms c) 0) (stack c) /\
+    (forall cl rest, cstack (ms c) = cl :: rest -> in_data_delivery 0 rest = false).
+Proof.
+  intros H1 _ _ H4 c Hr. destruct (inv_reach H1 H4 Hr). split; [assumption|].
+  intros cl rest E. rewrite i_cstack0 in E.
+  destruct i_shape0 as (b & Hb & [(Hil & Hst) | [(Hil & Hk & v0 & Hst) | (Hil & Hk & Hst)]]);
+    rewrite Hst in E.
+  - destruct Hb as [-> | ->]; cbn in E; inversion E; reflexivity.
+  - cbn in E. inversion E. now apply base_no_data.
+  - cbn in E. inversion E. now apply base_no_data.
+Qed.
+Print Assumptions from_iter_loop_stack.
+
+(** 2. (C15) the results of next() are the iterator's items in order, and every
+    item obtained is delivered, in order, at once *)
+Theorem from_iter_order (it : nat -> option val) p :
+  nsinks p = 1 -> resub p = false -> no_nest p = true -> c14 p = false ->
+  forall c : cfg (from_iter_op it), reach p g_std c ->
+    nexts (trace c) = map it (seq 0 (fi_pos (cst c))) /\
+    map Some (data_out 0 (trace c)) =
+      filter (fun r => match r with Some _ => true | None => false end) (nexts (trace c)).
+Proof.
+  intros H1 _ _ H4 c Hr. destruct (inv_reach H1 H4 Hr). split; assumption.
+Qed.
+Print Assumptions from_iter_order.
+
+(** 3. (C15) the iterator is never advanced without a Pull *)
+Theorem from_iter_lazy (it : nat -> option val) p :
+  nsinks p = 1 -> resub p = false -> no_nest p = true -> c14 p = false ->
+  forall c : cfg (from_iter_op it), reach p g_std c ->
+    length (nexts (trace c)) <= npull (ms c) 0.
+Proof.
+  intros H1 _ _ H4 c Hr. destruct (inv_reach H1 H4 Hr). lia.
+Qed.
+Print Assumptions from_iter_lazy.
+
+(** 4. (C15) Terminate is sent exactly when next() returned None *)
+Theorem from_iter_done (it : nat -> option val) p :
+  nsinks p = 1 -> resub p = false -> no_nest p = true -> c14 p = false ->
+  forall c : cfg (from_iter_op it), reach p g_std c ->
+    (sk (ms c) 0 = SFinished <-> In None (nexts (trace c))).
+Proof.
+  intros H1 _ _ H4 c Hr. destruct (inv_reach H1 H4 Hr). symmetry. assumption.
+Qed.
+Print Assumptions from_iter_done.
+
+Lemma filter_is_some_id (l : list (option val)) : ~ In None l -> filter is_some l = l.
+Proof.
+  induction l as [|[v|] l IH]; cbn; intros H; [reflexivity | | tauto].
+  rewrite IH; tauto.
+Qed.
+
+Lemma none_last (l : list (option val)) :
+  ~ In None (removelast l) ->
+  (~ In None l /\ l = filter is_some l) \/ (In None l /\ l = filter is_some l ++ [None]).
+Proof.
+  destruct l as [|y l0].
+  - intros _. left. cbn. tauto.
+  - destruct (@exists_last _ (y :: l0)) as (l' & x & E); [discriminate|]. rewrite E.
+    rewrite removelast_last. intros Hl. rewrite filter_app_one, (@filter_is_some_id l' Hl).
+    destruct x as [v|]; cbn.
+    + left. split; [|reflexivity]. intros HX. apply in_app_or in HX.
+      destruct HX as [HX|[HX|[]]]; [tauto | discriminate].
+    + right. split; [|now rewrite app_nil_r]. apply in_or_app. right. now left.
+Qed.
+
+(** the exact form: the iterator is not touched after its first None, so
+    the results of next() are the delivered items, followed by None iff the
+    sink was sent Terminate *)
+Theorem from_iter_done_exact (it : nat -> option val) p :
+  nsinks p = 1 -> resub p = false -> no_nest p = true -> c14 p = false ->
+  forall c : cfg (from_iter_op it), reach p g_std c ->
+    nexts (trace c) =
+    map Some (data_out 0 (trace c)) ++
+    match sk (ms c) 0 with SFinished => [None] | _ => [] end.
+Proof.
+  intros H1 _ _ H4 c Hr. destruct (inv_reach H1 H4 Hr).
+  rewrite i_data0.
+  destruct (none_last _ i_last0) as [[Hn E] | [Hn E]].
+  - rewrite <- E. destruct (sk (ms c) 0); try (now rewrite app_nil_r).
+    exfalso. apply Hn. now apply i_fin0.
+  - apply i_fin0 in Hn. now rewrite Hn.
+Qed.
+Print Assumptions from_iter_done_exact.
+
+(** once the sink has disposed ([fi_completed], i.e. [sk = SDisposed]) the
+    iterator is never advanced again, whatever the environment does *)
+Theorem from_iter_disposed_stops (it : nat -> option val) p :
+  nsinks p = 1 -> resub p = false -> no_nest p = true -> c14 p = false ->
+  forall c : cfg (from_iter_op it), reach p g_std c ->
+    (fi_completed (cst c) = true <-> sk (ms c) 0 = SDisposed) /\
+    (fi_completed (cst c) = true ->
+     forall mvs, all_enabled p g_std c mvs = true ->
+       nexts (trace (fold_left (@step p (from_iter_op it)) mvs c)) = nexts (trace c)).
+Proof.
+  intros H1 _ _ H4 c Hr. split.
+  - destruct (inv_reach H1 H4 Hr). rewrite i_compl0.
+    destruct (sk (ms c) 0); split; intros; try discriminate; reflexivity.
+  - intros Hcp mvs. revert c Hr Hcp.
+    induction mvs as [|m mvs IH]; intros c Hr Hcp Hall; cbn in *; [reflexivity|].
+    apply andb_prop in Hall. destruct Hall as [Hm Hall].
+    destruct (@completed_step it p H1 c m (inv_reach H1 H4 Hr) Hcp Hm) as [Hcp' Hn].
+    rewrite IH; [exact Hn | now apply reachS | exact Hcp' | exact Hall].
+Qed.
+Print Assumptions from_iter_disposed_stops.
+
+(** ** Non-vacuity: a conformant script that exercises the trampoline.  The
+    sink pulls from inside the Handshake delivery, pulls again from inside the
+    first Data delivery (only the flag is set; the outer loop serves it after
+    the delivery returned), and pulls a third time later: next() = None. *)
+Definition ex_it (k : nat) : option val := if k <? 2 then Some (VN k) else None.
+Definition ex_p : mparams :=
+  {| nsinks := 1; late_ok := false; pullable := false; one_pull := false;
+     resub := false; no_nest := true; c14 := false |}.
+Definition ex_script : list move :=
+  [MIn (ISub 0 0); MIn (IUp 0 UP); MIn (IUp 0 UP); MRet; MRet; MRet; MIn (IUp 0 UP); MRet].
+
+Example from_iter_nonvacuous :
+  all_enabled ex_p g_std (cfg0 (from_iter_op ex_it)) ex_script = true /\
+  let c := run ex_p (from_iter_op ex_it) ex_script in
+  data_out 0 (trace c) = [VN 0; VN 1] /\ nexts (trace c) = [Some (VN 0); Some (VN 1); None] /\
+  sk (ms c) 0 = SFinished /\ npull (ms c) 0 = 3 /\ viols (ms c) = [] /\ stack c = [].
+Proof. vm_compute. repeat split; reflexivity. Qed.
